@@ -235,6 +235,16 @@ func (c *evalCtx) eval(e ast.Expr) SV {
 	case *ast.Ident:
 		return c.ident(x.Name)
 	case *ast.UnaryExpr:
+		if x.Op == token.AND {
+			if id, ok := x.X.(*ast.Ident); ok {
+				if sp := enc.E.L.SSA[c.pkg.Name()]; sp != nil {
+					if g := sp.Var(id.Name); g != nil {
+						return SV{t: g.Type(), term: enc.globalAddr(g)}
+					}
+				}
+			}
+			cfail("address-of is only supported for package-level struct variables")
+		}
 		v := c.eval(x.X)
 		if v.cval != nil && isUntyped(v.t) && x.Op == token.SUB && v.t.(*types.Basic).Kind() == types.UntypedFloat && constant.Sign(v.cval) == 0 {
 			// Go folds -0.0 to +0; in a specification the author means negative zero
@@ -402,6 +412,20 @@ func (c *evalCtx) ident(name string) SV {
 		case *types.Var:
 			// package-level variable: current value in the heap
 			key := "G_" + mangle(c.pkg.Name()+"."+name)
+			if sp := enc.E.L.SSA[c.pkg.Name()]; sp != nil {
+				if g := sp.Var(name); g != nil {
+					if t, ok := enc.globalConstTerm(g); ok {
+						return SV{t: o.Type(), term: t}
+					}
+					if enc.E.globalIsStable(g) {
+						if enc.stableGlobals == nil {
+							enc.stableGlobals = map[string]bool{}
+						}
+						enc.stableGlobals[key] = true
+						return SV{t: o.Type(), term: enc.R.heapConst(key, enc.R.sortOf(o.Type()))}
+					}
+				}
+			}
 			return SV{t: o.Type(), term: enc.heapGet(c.heap, key, enc.R.sortOf(o.Type()))}
 		}
 	}
@@ -569,7 +593,16 @@ func (c *evalCtx) call(x *ast.CallExpr) SV {
 			c2.heap = c.oldHeap
 		}
 		if c.oldBind != nil {
-			c2.bind = c.oldBind
+			nb := map[string]SV{}
+			for k, v := range c.oldBind {
+				nb[k] = v
+			}
+			for k, v := range c.bind {
+				if strings.HasPrefix(v.term, "q!") {
+					nb[k] = v // quantified variables stay in scope inside old()
+				}
+			}
+			c2.bind = nb
 		}
 		return c2.eval(x.Args[0])
 	case "len":
@@ -609,7 +642,7 @@ func (c *evalCtx) call(x *ast.CallExpr) SV {
 		}
 		k := c.coerce(c.eval(x.Args[1]), mt.Key())
 		_, _, pk, ps := enc.mapHeapKeys(mt)
-		return SV{t: boolT, term: fmt.Sprintf("(select (select %s %s) %s)", enc.heapGet(c.heap, pk, ps), m.term, k.term)}
+		return SV{t: boolT, term: fmt.Sprintf("(and (not (= %s 0)) (select (select %s %s) %s))", m.term, enc.heapGet(c.heap, pk, ps), m.term, k.term)}
 	case "ite":
 		argn(3)
 		cnd := c.materialise(c.eval(x.Args[0]))
@@ -652,6 +685,19 @@ func (c *evalCtx) call(x *ast.CallExpr) SV {
 	// spec functions
 	if sf, ok := enc.E.CS.Specs[fnName]; ok {
 		return c.applySpec(sf, x.Args)
+	}
+	// logical Go functions under contract may be named in specifications
+	if fc := enc.E.CS.Funcs[c.pkg.Name()+"."+fnName]; fc != nil && fc.Logical {
+		callee := enc.E.L.Funcs[fc.Key]
+		if callee == nil {
+			cfail("logical function %s not found", fc.Key)
+		}
+		var args []SV
+		for i, a := range x.Args {
+			v := c.materialise(c.coerce(c.eval(a), callee.Params[i].Type()))
+			args = append(args, SV{t: callee.Params[i].Type(), term: v.term})
+		}
+		return c.f.logicalApp(callee, fc, args)
 	}
 	// conversions T(x)
 	if tv, err := types.Eval(token.NewFileSet(), c.pkg, token.NoPos, types.ExprString(x.Fun)); err == nil && tv.IsType() {
